@@ -9,6 +9,7 @@ package main
 //	//@ keyed NAME PROPS...: func=F ; in=pkg ; param=P ; key=K
 
 import (
+	"go/constant"
 	"fmt"
 	"go/types"
 	"sort"
@@ -230,6 +231,18 @@ func runGuardedRules(p *Program, id string) ([]*Gen, []string) {
 							continue
 						}
 					}
+					if ou := kv["only-under"]; ou != "" {
+						// `only-under=FACT`: the rule speaks about the sites inside that branch only
+						under := false
+						for _, fct := range domFacts(in) {
+							if factMatches(fct, ou) {
+								under = true
+							}
+						}
+						if !under {
+							continue
+						}
+					}
 					n++
 					o := &Oblig{Name: fmt.Sprintf("%s.%s#guarded:%s.%d", kv["in"], kv["func"], name, n), Kind: "guarded", Goal: "true", Pre: "unsat", AutoSite: true,
 						Pos:  strings.TrimPrefix(p.Fset.Position(in.Pos()).String(), p.Repo+"/"),
@@ -268,6 +281,14 @@ func runGuardedRules(p *Program, id string) ([]*Gen, []string) {
 							}
 							if !okEdge {
 								holds, missing = false, "any of ("+ra+") on the edge from block "+fmt.Sprint(pred.Index)
+							}
+						}
+					}
+					if fb := kv["forbid"]; fb != "" && holds {
+						// `forbid=FACT`: the site must not be decided by that condition
+						for _, fct := range domFacts(in) {
+							if fct.cond != nil && factMatches(fct, fb) {
+								holds, missing = false, "a decision other than "+fb+" (the site depends on exactly that)"
 							}
 						}
 					}
@@ -495,6 +516,13 @@ func runDecidesRules(p *Program, id string) ([]*Gen, []string) {
 							fieldsInCone(fct.cond, seen, fields, 0)
 						}
 					}
+					if kv["control"] != "" {
+						// control dependence in the wide sense: every branch one arm of which can reach the site (within the
+						// same loop iteration) while the other cannot, e.g. `if skip { continue }` far above the site
+						for _, c := range controlConds(in) {
+							fieldsInCone(c, seen, fields, 0)
+						}
+					}
 					for _, want := range splitList(kv["must"], ",") {
 						o := &Oblig{Name: fmt.Sprintf("%s.%s#decides:%s.%d.%s", kv["in"], kv["func"], name, n, want), Kind: "decides", Goal: "true", Pre: "unsat", AutoSite: true,
 							Pos:  strings.TrimPrefix(p.Fset.Position(in.Pos()).String(), p.Repo+"/"),
@@ -517,6 +545,191 @@ func runDecidesRules(p *Program, id string) ([]*Gen, []string) {
 		}
 		if n == 0 {
 			errs = append(errs, "contract-stale: decides rule "+name+" matches no site")
+		}
+		gens = append(gens, g)
+	}
+	return gens, errs
+}
+
+// controlConds returns the conditions of the branches that decide whether the instruction is reached: exactly one
+// successor of the branch reaches the instruction's block without going around a loop that contains it.
+func controlConds(in ssa.Instruction) []ssa.Value {
+	target := in.Block()
+	reach := func(from *ssa.BasicBlock) bool {
+		seen := map[*ssa.BasicBlock]bool{}
+		var walk func(b *ssa.BasicBlock) bool
+		walk = func(b *ssa.BasicBlock) bool {
+			if b == target {
+				return true
+			}
+			if seen[b] {
+				return false
+			}
+			seen[b] = true
+			for _, s := range b.Succs {
+				if s != target && s.Dominates(target) && s.Dominates(b) {
+					// back edge to a loop header that encloses the target: the next iteration is another item
+					continue
+				}
+				if walk(s) {
+					return true
+				}
+			}
+			return false
+		}
+		return walk(from)
+	}
+	var out []ssa.Value
+	for _, b := range target.Parent().Blocks {
+		if len(b.Instrs) == 0 || len(b.Succs) != 2 {
+			continue
+		}
+		iff, ok := b.Instrs[len(b.Instrs)-1].(*ssa.If)
+		if !ok {
+			continue
+		}
+		if reach(b.Succs[0]) != reach(b.Succs[1]) {
+			out = append(out, iff.Cond)
+		}
+	}
+	return out
+}
+
+// runConsultedRules: `consulted NAME PROPS: type=pkg.Type ; in=pkgA,pkgB ; except=Const:reason,...`
+// Every exported constant of the named type (a feature table) is used as an operand somewhere in the listed packages:
+// a table entry nobody consults is a feature nobody gates.
+func runConsultedRules(p *Program, id string) ([]*Gen, []string) {
+	var gens []*Gen
+	var errs []string
+	for _, d := range p.CS.Dirs {
+		if d.Kind != "consulted" {
+			continue
+		}
+		j := strings.Index(d.Text, ":")
+		if j < 0 {
+			continue
+		}
+		head := strings.Fields(d.Text[:j])
+		if len(head) == 0 || !hasProp(head[1:], id) {
+			continue
+		}
+		name := head[0]
+		kv := map[string]string{}
+		for _, part := range strings.Split(d.Text[j+1:], ";") {
+			part = strings.TrimSpace(part)
+			if k := strings.Index(part, "="); k > 0 {
+				kv[strings.TrimSpace(part[:k])] = strings.TrimSpace(part[k+1:])
+			}
+		}
+		tparts := strings.SplitN(kv["type"], ".", 2)
+		if len(tparts) != 2 {
+			errs = append(errs, "contract-stale: consulted "+name+": type must be pkg.Type")
+			continue
+		}
+		var tpkg *ssa.Package
+		for path, x := range p.Pkgs {
+			if x.Pkg.Name() == tparts[0] && strings.HasPrefix(path, modPath) {
+				tpkg = x
+			}
+		}
+		if tpkg == nil {
+			errs = append(errs, "contract-stale: consulted "+name+": package "+tparts[0]+" not loaded")
+			continue
+		}
+		// the constants of that type
+		consts := map[string]constant.Value{}
+		for _, nm := range tpkg.Pkg.Scope().Names() {
+			if c, ok := tpkg.Pkg.Scope().Lookup(nm).(*types.Const); ok && c.Exported() {
+				if n, ok := c.Type().(*types.Named); ok && n.Obj().Name() == tparts[1] {
+					consts[nm] = c.Val()
+				}
+			}
+		}
+		if len(consts) == 0 {
+			errs = append(errs, "contract-stale: consulted "+name+": no constants of type "+kv["type"])
+			continue
+		}
+		except := map[string]bool{}
+		for _, e := range splitList(kv["except"], ",") {
+			except[strings.TrimSpace(strings.SplitN(e, ":", 2)[0])] = true
+		}
+		// every constant operand of that type in the listed packages
+		used := map[string]bool{}
+		inPkgs := map[string]bool{}
+		for _, n := range splitList(kv["in"], ",") {
+			inPkgs[n] = true
+		}
+		for path, x := range p.Pkgs {
+			if !inPkgs[x.Pkg.Name()] || !strings.HasPrefix(path, modPath) {
+				continue
+			}
+			var visit func(f *ssa.Function)
+			visit = func(f *ssa.Function) {
+				for _, b := range f.Blocks {
+					for _, in := range b.Instrs {
+						for _, op := range in.Operands(nil) {
+							if op == nil || *op == nil {
+								continue
+							}
+							c, ok := (*op).(*ssa.Const)
+							if !ok || c.Value == nil {
+								continue
+							}
+							n, ok := c.Type().(*types.Named)
+							if !ok || n.Obj().Name() != tparts[1] || n.Obj().Pkg() == nil || n.Obj().Pkg().Name() != tparts[0] {
+								continue
+							}
+							// a constant may be a union of table entries (A | B): every entry whose bit is in it counts
+							for nm, v := range consts {
+								cv, ok1 := constant.Uint64Val(constant.ToInt(c.Value))
+								tv, ok2 := constant.Uint64Val(constant.ToInt(v))
+								if ok1 && ok2 && tv != 0 && cv&tv == tv {
+									used[nm] = true
+								}
+							}
+						}
+					}
+				}
+				for _, a := range f.AnonFuncs {
+					visit(a)
+				}
+			}
+			for _, m := range x.Members {
+				if f, ok := m.(*ssa.Function); ok {
+					visit(f)
+				}
+				if t, ok := m.(*ssa.Type); ok {
+					for _, recv := range []types.Type{t.Type(), types.NewPointer(t.Type())} {
+						ms := p.Prog.MethodSets.MethodSet(recv)
+						for i := 0; i < ms.Len(); i++ {
+							if f := p.Prog.MethodValue(ms.At(i)); f != nil && f.Pkg == x {
+								visit(f)
+							}
+						}
+					}
+				}
+			}
+		}
+		g := NewGen(p, nil, nil)
+		g.Label = "consulted " + name
+		var names []string
+		for nm := range consts {
+			names = append(names, nm)
+		}
+		sort.Strings(names)
+		for _, nm := range names {
+			if except[nm] {
+				continue
+			}
+			o := &Oblig{Name: fmt.Sprintf("%s#consulted:%s.%s", tparts[0], name, nm), Kind: "consulted", Goal: "true", Pre: "unsat", AutoSite: true,
+				Text: "consulted " + name + ": " + kv["type"] + " constant " + nm + " is used in one of " + kv["in"]}
+			if !used[nm] {
+				o.Pre = "sat"
+				o.Model = "no instruction in " + kv["in"] + " has the constant " + tparts[0] + "." + nm + " as an operand: the table entry is never consulted"
+				o.ReplayTemplate = kv["scenario."+nm]
+				o.ReplayPkgDir = strings.TrimPrefix(strings.TrimPrefix(d.Pkg, modPath), "/")
+			}
+			g.Obligs = append(g.Obligs, o)
 		}
 		gens = append(gens, g)
 	}
